@@ -430,7 +430,16 @@ def model_line(c):
         if "key_ops" in c["opts"]:
             line["key_ops"] = c["opts"]["key_ops"]
         return line
-    if c["op"] in ("kidtype", "jwe_allow", "callable", "embedded_jwk", "jws_keyops"):
+    if c["op"] == "callable":
+        # the key argument is a resolver; the token may carry its signer's key in a jwk header (Model/KeyPolicy: KeyArg.resolver, Hdr.jwk)
+        kty, crv = {"HS256": ("oct", None), "RS256": ("RSA", None), "ES256": ("EC", "P-256"), "EdDSA": ("OKP", "Ed25519")}[c["alg"]]
+        signer = 1 if c["signed_by"] == "right" else 2
+        hdr = {"alg": c["alg"], "kid": None, "members": ["alg"] + (["jwk"] if c["jwk_header"] else [])}
+        if c["jwk_header"]:
+            hdr["jwk"] = kd(kty, crv, signer)
+        answer = {"right": kd(kty, crv, 1), "none": None, "wrong": kd(kty, crv, 2 if signer == 1 else 1)}[c["returns"]]
+        return {"op": "policy", "allowed": [c["alg"]] if c["api"] == "jwt" else None, "private_headers": [], "hdr": hdr, "arg": {"resolver": answer}}
+    if c["op"] in ("kidtype", "jwe_allow", "embedded_jwk", "jws_keyops"):
         return None
     if c["op"] == "confusion":
         return {"op": "oct_import", "raw": c["raw"]}
@@ -444,7 +453,17 @@ def model_line(c):
     return {"op": "policy", "allowed": c["allowed"], "private_headers": c.get("private_headers") or [], "hdr": hdr, "arg": c["arg"]}
 
 
+def model_canon_for(c, mo):
+    """the model says WHICH key the signature is checked with; the token verifies iff that is its signer's key"""
+    if c["op"] == "callable":
+        signer = 1 if c["signed_by"] == "right" else 2
+        return {"accepted": "ok" in mo and mo["ok"]["ident"] == signer}
+    return mo
+
+
 def project(c, out):
+    if c["op"] == "callable":
+        return {"accepted": out["accepted"]}
     if c["op"] == "jwe_keyops":
         return {side: ("ok" if out[side] == "ok" else "refused") for side in ("encrypt", "decrypt")}
     if c["op"] == "confusion":
